@@ -12,6 +12,7 @@ from __future__ import annotations
 
 import itertools
 import random
+import sys
 import threading
 import time
 from typing import Any, Callable
@@ -39,7 +40,15 @@ ASSUMPTIONS = [
 WATCHDOG = 30.0
 
 
-BLOCKED_AFTER = 0.4  # seconds without reaching an engine call before a thread counts as blocked on a lock
+BLOCKED_AFTER = 3.0  # seconds without reaching an engine call before a thread counts as blocked on some unknown lock
+LOCK_GRACE = 0.05  # a thread whose innermost Python frame is FakeSnow.connect (waiting for the connect lock) is blocked at once
+
+
+def _waits_for_connect_lock(ident: int | None) -> bool:
+    """True if that thread's innermost Python frame is FakeSnow.connect, i.e. it sits in the C-level acquire of the connect
+    lock (once it has the lock, the innermost frame is the connection's __init__ or deeper)."""
+    fr = sys._current_frames().get(ident) if ident is not None else None  # noqa: SLF001
+    return fr is not None and fr.f_code.co_name == "connect" and fr.f_code.co_filename.endswith("instance.py")
 
 
 class Deadlock(Exception):
@@ -58,6 +67,7 @@ class Sched:
         self.index: dict[int, int] = {}
         self.trace: list[int] = []
         self.blocked_events = 0
+        self.ident_of: dict[int, int] = {}
 
     def gate(self, i: int) -> None:
         with self.cv:
@@ -80,6 +90,7 @@ class Sched:
     def run(self, bodies: list[Callable[[], None]], plan: list[tuple[int, int]]) -> None:
         def wrap(i: int) -> None:
             self.index[threading.get_ident()] = i
+            self.ident_of[i] = threading.get_ident()
             try:
                 self.gate(i)  # initial park
                 bodies[i]()
@@ -124,8 +135,9 @@ class Sched:
                     t0 = time.time()
                     while not (self.turn is None and self.state[c] in ("parked", "done")):
                         self.cv.wait(timeout=0.05)
-                        if time.time() - t0 > BLOCKED_AFTER and self.turn is None and self.state[c] == "running" and any(
-                            s == "parked" for j, s in enumerate(self.state) if j != c
+                        waited = time.time() - t0
+                        if self.turn is None and self.state[c] == "running" and any(s == "parked" for j, s in enumerate(self.state) if j != c) and (
+                            waited > BLOCKED_AFTER or (waited > LOCK_GRACE and _waits_for_connect_lock(self.ident_of.get(c)))
                         ):
                             self.state[c] = "blocked"
                             self.blocked_events += 1
